@@ -129,7 +129,7 @@ def gen_history(rng, tier, flavour=None):
     timeout = rng.choice((10, 20, 50, 100, 100, 3600))
     limit = rng.choice((20, 30, 60, 2048))
     cfg = {"loc": loc, "kind": kind, "how": how, "timeout": timeout, "limit": limit}
-    lines = [f"new {loc} {kind} {how} {timeout} {limit}"]
+    lines = [f"new {loc} {kind} {how} {timeout} {limit}" + (" grp" if rng.random() < 0.12 else "")]
     multi = kind in ("network2", "network3")
     nb = rng.choice((3, 4, 6, 8)) if multi else rng.choice((1, 1, 2, 2, 3))     # several nodes: many identifiers, so that they spread
     attacker = rng.random() < 0.5
@@ -293,6 +293,12 @@ def special_histories(tier):
             H.append([f"new {loc} {kind} 1 1000 20", "req 0 1000 jar set:6b:r41x30", "drop", "req 0 1001 jar", "req 0 1002 jar set:6b:r42x31", "drop",
                       "req 0 1003 jar set:6b:r43x32", "req 0 1004 jar", "drop", "req 0 1005 jar clear", "req 9 1006 old:0", "req 0 1007 jar set:6b:r44x33",
                       "drop", "req 0 1008 jar reset", "drop", "req 9 1009 old:0", "req 0 1010 jar", "drop", "drop", "req 0 1011 jar srv:1 set:61:62", "req 0 1012 jar"])
+    # a digit-grouping global locale must not leak into stored numbers (seeded C06-10: set<T> without the classic locale)
+    for loc in ("server", "client"):
+        H.append([f"new {loc} memory 1 100 2048 grp", "req 0 1000 jar set:6b:76 age:86400", "req 0 1001 jar", "req 0 1002 jar age:1234567 how:2",
+                  "req 0 1003 jar", "req 0 1004 jar srv:0 age:999", "req 0 1005 jar"])
+    # two forked workers must not issue the same identifier (seeded C06-11: per-thread entropy pool duplicated by fork)
+    H.append(["new server files 1 100 2048", "req 0 1000 jar set:6b:76", "forksids", "forksids", "req 0 1001 jar"])
     # clear on a session that only exists client-side; replay of the old client cookie (inherent to client storage)
     H.append(["new both memory 1 100 2048", "req 0 1000 jar set:6b:76", "req 0 1001 jar clear", "req 9 1002 old:0", "req 9 1102 old:0"])
     # short_gc: more than five expired sessions, collected five at a time
